@@ -1,7 +1,7 @@
 import python_minifier.ast_compat as ast
 
 from python_minifier.rename.binding import NameBinding
-from python_minifier.rename.util import arg_rename_in_place, builtins, get_global_namespace
+from python_minifier.rename.util import arg_rename_in_place, builtins, get_global_namespace, is_module_annotation_without_value
 from python_minifier.transforms.suite_transformer import NodeVisitor
 
 
@@ -49,6 +49,10 @@ class NameBinder(NodeVisitor):
         if node.id in node.namespace.nonlocal_names:
             # A nonlocal name does not create a binding.
             # We will resolve the binding later
+            return
+
+        if is_module_annotation_without_value(node):
+            # This doesn't bind the name, it is resolved like a reference
             return
 
         if isinstance(node.ctx, (ast.Store, ast.Del)):
